@@ -207,30 +207,12 @@ void harness(void)
 #ifdef U_ARGS
 /* argv: argc+1 slots.  The slot with ghost index vg_k holds vg_old_ptr; when i <= vg_k < argc it is a
  * real word (registered string 1).  The strdup call number vg_k-i+1 is recorded (vg_dup_src/res). */
-#define ARGS_TARGET(n) (*((spif_charptr_t **) OPT_TAB[n].value))
-#define ARGS_REMOVE    ((spifopt_settings.flags & SPIFOPT_SETTING_REMOVE_ARGS) != 0)
-#define K_IN_REST      ((long) i <= (long) vg_k && (long) vg_k < (long) argc)
 static void handle_arglist(spif_int32_t n, spif_charptr_t val_ptr, unsigned char hasequal, spif_int32_t i, int argc, char *argv[])
-__CPROVER_requires(OPTTAB_INV && 0 <= n && n < OPT_N && __CPROVER_rw_ok((spif_charptr_t **) OPT_TAB[n].value, sizeof(spif_charptr_t *)))
-__CPROVER_requires(hasequal == 0)
-__CPROVER_requires(1 <= i && i <= argc && argc <= 0x7ffffff0 && __CPROVER_rw_ok(argv, ((size_t) argc + 1) * sizeof(char *)))
 #ifdef U_ARGS_NARROW
-__CPROVER_requires(argc - i <= 65535)
+CONTRACT_handle_arglist_rest(argc - i <= 65535)
+#else
+CONTRACT_handle_arglist_rest(1)
 #endif
-__CPROVER_requires(vg_k <= (size_t) argc && argv[vg_k] == (char *) vg_old_ptr)
-__CPROVER_requires(__CPROVER_rw_ok(vg_arena, vg_arena_size) && vg_arena_off == 0)
-__CPROVER_requires(!K_IN_REST || (VOPT_STR_OK(vg_p1, vg_n1) && vg_p1 == vg_old_ptr))
-__CPROVER_requires(K_IN_REST || vg_p1 == NULL)
-__CPROVER_requires(vg_dup_calls == 0 && vg_dup_want == (K_IN_REST ? (unsigned long) vg_k - (unsigned long) i + 1 : 0UL))
-__CPROVER_assigns(ARGS_TARGET(n), __CPROVER_object_whole(argv), vg_dup_calls, vg_dup_src, vg_dup_res, vg_arena_off, __CPROVER_object_whole(vg_arena))
-/* result: fresh array of argc-i+1 slots, NULL-terminated */
-__CPROVER_ensures(__CPROVER_is_fresh(ARGS_TARGET(n), ((size_t) (argc - i) + 1) * sizeof(spif_charptr_t)))
-__CPROVER_ensures(ARGS_TARGET(n)[argc - i] == NULL)
-/* entry vg_k-i is the duplicate of word vg_k (so: argc-i non-NULL entries, in order) */
-__CPROVER_ensures(!K_IN_REST || (ARGS_TARGET(n)[(long) vg_k - i] == (spif_charptr_t) vg_dup_res && vg_dup_res != NULL &&
-                                 vg_dup_src == vg_old_ptr))
-/* argv: swallowed words cleared iff REMOVE_ARGS; everything else untouched */
-__CPROVER_ensures(argv[vg_k] == ((K_IN_REST && ARGS_REMOVE) ? (char *) NULL : (char *) vg_old_ptr))
 ;
 void harness(void)
 {
